@@ -167,6 +167,7 @@ type dkgRun struct {
 	Acct      string
 	Fault     dkgFault
 	Order     []uint64
+	Stale     []uint64 // instances that already hold an account of that name
 
 	Parts    []uint64
 	Polys    map[uint64][]*big.Int
@@ -419,6 +420,13 @@ func (r *dkgRun) coqCase(id int, checkLen bool) string {
 	var accts []string
 	for _, id := range r.IDs {
 		a := r.Accounts[id]
+		isStale := false
+		for _, s := range r.Stale {
+			isStale = isStale || s == id
+		}
+		if isStale {
+			continue // it keeps whatever it had
+		}
 		if a == nil {
 			accts = append(accts, fmt.Sprintf("(%d%%N, None)", id))
 			continue
@@ -437,8 +445,8 @@ func (r *dkgRun) coqCase(id int, checkLen bool) string {
 	if len(parts) == 0 && int(r.N) <= len(r.IDs) {
 		parts = r.IDs[:r.N] // refused before any message: only the count matters
 	}
-	return fmt.Sprintf(" DC %s %s %s %d%%nat %s %s %s %s %s %s %s %s", coqN(id), coqBool(checkLen), coqStr(r.Acct), r.T, coqNs(parts), coqNs(r.IDs),
-		coqList(polys), coqList(r.Swaps), coqNs(r.LostP), coqNs(r.LostE), res, coqList(accts))
+	return fmt.Sprintf(" DC %s %s %s %d%%nat %s %s %s %s %s %s %s %s %s", coqN(id), coqBool(checkLen), coqStr(r.Acct), r.T, coqNs(parts), coqNs(r.IDs),
+		coqList(polys), coqList(r.Swaps), coqNs(r.LostP), coqNs(r.LostE), res, coqList(accts), coqNs(r.Stale))
 }
 
 // ---- judging the properties on the real cluster ----
@@ -750,6 +758,44 @@ func cmdDkg(prop string, args []string) int {
 					}
 					record(r)
 				}
+			}
+		}
+		// a participant that already holds an account of the requested name (e.g. left by an earlier
+		// attempt that reached only some participants): the new generation must not report success
+		// with that participant holding something else
+		if prop == "C12" && len(ids) >= 3 {
+			for attempt := 0; attempt < 8; attempt++ {
+				acctN++
+				name := fmt.Sprintf("Wallet 3/s%d", acctN)
+				r1 := &dkgRun{IDs: ids, Initiator: ids[0], N: 2, T: 2, Acct: name}
+				runGeneration(ctx, c, r1)
+				if r1.Err != nil {
+					continue
+				}
+				var outsider uint64
+				found := false
+				for _, id := range ids {
+					in := false
+					for _, p := range r1.Parts {
+						in = in || p == id
+					}
+					if !in {
+						outsider, found = id, true
+					}
+				}
+				if !found {
+					continue
+				}
+				n := uint32(len(ids))
+				r2 := &dkgRun{IDs: ids, Initiator: outsider, N: n, T: n/2 + 1, Acct: name, Stale: r1.Parts}
+				runGeneration(ctx, c, r2)
+				stats["stale-account.runs"]++
+				if r2.Err == nil {
+					stats["stale-account.reported-success"]++
+					monFail = append(monFail, judgeSuccess(ctx, c, r2, stats, false)...)
+				}
+				record(r2)
+				break
 			}
 		}
 		c.Close(ctx)
